@@ -28,11 +28,17 @@ func hasForeignNS(s *ukit.Spec) bool {
 	return f
 }
 
+func hasLiteral(s *ukit.Spec) bool {
+	f := false
+	s.Walk(func(n *ukit.Spec) { f = f || n.Literal })
+	return f
+}
+
 func scopes(tier string) []*ukit.Spec {
 	var out []*ukit.Spec
 	for _, s := range ukit.Universe(2, tier == "thorough") {
-		if hasForeignNS(s) {
-			continue
+		if hasForeignNS(s) || hasLiteral(s) {
+			continue // struct-literal schemas are not 'built through the public constructors'
 		}
 		out = append(out, ukit.WrapScope(s))
 	}
